@@ -43,7 +43,9 @@ Record retry_case := {
   rc_fkind  : Z;           (* 0 nil | 1 the error of attempt rc_fid | 2 panic | 3 short-circuited | 4 other *)
   rc_fid    : Z;
   rc_gaps   : list Z;      (* ns between the end of attempt j and the start of attempt j+1 *)
-  rc_tail   : Z;           (* ns between the end of the last attempt and the return (-1 = not measured) *)
+  rc_tail   : Z;           (* ns between the end of the last attempt and the return (-1 = not measured);
+                              informational only: the wait the code makes after the LAST failed attempt
+                              is not something C10 speaks about, so it is not compared *)
   rc_cbt    : Z;           (* breaker window total afterwards (-1 = no breaker) *)
   rc_cbf    : Z            (* breaker window failures *)
 }.
@@ -84,17 +86,19 @@ Definition corr_retry (c : retry_case) : bool :=
   Zeqb_pair cb (rc_cbt c, rc_cbf c) &&
   (Z.of_nat (List.length (rc_gaps c)) =? Z.max 0 (rc_calls c - 1)) &&
   (List.length (rc_gaps c) <=? List.length waits)%nat &&
-  ge_prefix (rc_gaps c ++ (if rc_tail c <? 0 then [] else [rc_tail c])) waits.
+  ge_prefix (rc_gaps c) waits.
 
 (** the property on the implementation's trace *)
 Definition script_at (s : list Z) (i : Z) : Z :=
   if i <? 0 then 1 else match nth_error s (Z.to_nat i) with Some k => k | None => 1 end.
 
+Definition is_err_code (k : Z) : bool := negb ((k =? 0) || (k =? 2)).
+
 Fixpoint all_failed_before (s : list Z) (n : nat) : bool :=
   (* attempts 0 .. n-1 all returned an error *)
   match n with
   | O => true
-  | S m => (script_at s (Z.of_nat m) =? 1) && all_failed_before s m
+  | S m => is_err_code (script_at s (Z.of_nat m)) && all_failed_before s m
   end.
 
 Definition prop_retry (c : retry_case) : bool :=
@@ -134,6 +138,21 @@ Definition class_retry (c : retry_case) : N :=
   let b7 := rc_fkind c =? 2 in
   let b8 := (0 <=? rc_cancel c) && (rc_cancel c + 1 <? rc_calls c) in
   (1 + bN b1 1 + bN b2 2 + bN b3 4 + bN b4 8 + bN b5 16 + bN b6 32 + bN b7 64 + bN b8 128)%N.
+
+(** the case the MODEL itself would produce (observables taken from [retry_run]); used to
+    state that the checker is sound for the model (proofs/RetryCheckProofs.v) *)
+Definition model_retry_case (p : policy) (script : list Z) (cancel cb : Z)
+           (draws : nat -> Z) (pick : nat -> bool) : retry_case :=
+  let inner := retry_run p (script_outcome script) draws (cancel_of cancel) pick in
+  let tr := cb_wrap (negb (cb =? 2)) inner in
+  let rej := existsb (fun e => match e with CbReject => true | _ => false end) tr in
+  let fin := if rej then (3, 0) else final_code (final_of (inner_of tr)) in
+  let n := n_attempts (inner_of tr) in
+  {| rc_pol := p; rc_script := script; rc_cancel := cancel; rc_cb := cb;
+     rc_calls := Z.of_nat n; rc_fkind := fst fin; rc_fid := snd fin;
+     rc_gaps := firstn (n - 1) (waits_of (inner_of tr)); rc_tail := -1;
+     rc_cbt := if cb =? 0 then -1 else Z.of_nat (List.length (records_of tr));
+     rc_cbf := if cb =? 0 then -1 else count_true (records_of tr) |}.
 
 Definition check_retry (c : retry_case) : result :=
   (corr_retry c, prop_retry c, class_retry c, 0%N).
@@ -231,7 +250,7 @@ Definition pscript_at (s : list (Z * Z)) (i : Z) : Z * Z :=
 (** does attempt [i] of this script end in an error the retry wrapper retries? *)
 Definition pfailed (c : pool_case) (q : pool_req) (i : Z) : bool :=
   let '(k, code) := pscript_at (q_script q) i in
-  if k =? 0 then zmem code (k_fcodes c) else (k =? 1) || (k =? 2).
+  if k =? 0 then zmem code (k_fcodes c) else negb (k =? 3).
 
 Fixpoint pall_failed_before (c : pool_case) (q : pool_req) (n : nat) : bool :=
   match n with
@@ -246,8 +265,8 @@ Definition expect_last (c : pool_case) (q : pool_req) (i : Z) : Z * Z :=
   if k =? 0 then (if zmem code (k_fcodes c) then (4, code) else (0, code))
   else if k =? 3 then (7, 0)
   else if cancelled then (3, 499)
-  else if k =? 1 then (1, 503)
-  else if 0 <? k_timeout c then (2, 408) else (8, 0).
+  else if k =? 2 then (if 0 <? k_timeout c then (2, 408) else (8, 0))
+  else (1, 503).
 
 Definition prop_req (c : pool_case) (q : pool_req) : bool :=
   let p := k_pol c in
@@ -285,6 +304,35 @@ Definition class_pool (c : pool_case) : N :=
     let b8 := existsb (fun q => q_res q =? 7) (k_reqs c) in
     (1 + bN b1 1 + bN b2 2 + bN b3 4 + bN b4 8 + bN b5 16 + bN b6 32 + bN b7 64 + bN b8 128)%N
   end.
+
+(** the case the MODEL itself would produce for a pool configuration and a list of client
+    requests (stream, script, cancel, draws, pick) - for the checker-soundness theorem *)
+Definition model_pool_req (pl : pool) (x : bool * list (Z * Z) * Z * (nat -> Z) * (nat -> bool)) : pool_req :=
+  let '(stream, script, cancel, draws, pick) := x in
+  let rq := {| rq_stream := stream; rq_script := tscript_of script; rq_cancel := cancel_of cancel;
+               rq_draws := draws; rq_pick := pick |} in
+  let out := pool_handle pl true rq in
+  let n := po_attempts out in
+  {| q_stream := stream; q_script := script; q_cancel := cancel;
+     q_calls := Z.of_nat n;
+     q_res := fst (presult_code (po_result out)); q_status := snd (presult_code (po_result out));
+     q_gaps := firstn (n - 1) (waits_of (handler_trace pl rq)) |}.
+
+Definition model_pool_rq (x : bool * list (Z * Z) * Z * (nat -> Z) * (nat -> bool)) : request :=
+  let '(stream, script, cancel, draws, pick) := x in
+  {| rq_stream := stream; rq_script := tscript_of script; rq_cancel := cancel_of cancel;
+     rq_draws := draws; rq_pick := pick |}.
+
+Definition model_pool_case (retry : bool) (p : policy) (timeout : Z) (cb : bool) (fcodes : list Z)
+           (xs : list (bool * list (Z * Z) * Z * (nat -> Z) * (nat -> bool))) : pool_case :=
+  let c0 := {| k_retry := retry; k_pol := p; k_timeout := timeout; k_cb := cb; k_fcodes := fcodes;
+               k_reqs := []; k_cbt := -1; k_cbf := -1 |} in
+  let pl := pool_of c0 in
+  let outs := pool_run pl (map model_pool_rq xs) in
+  {| k_retry := retry; k_pol := p; k_timeout := timeout; k_cb := cb; k_fcodes := fcodes;
+     k_reqs := map (model_pool_req pl) xs;
+     k_cbt := if cb then Z.of_nat (total_records outs) else -1;
+     k_cbf := if cb then Z.of_nat (failed_records outs) else -1 |}.
 
 Definition check_pool (c : pool_case) : result :=
   (corr_pool c, prop_pool c, class_pool c, 0%N).
